@@ -136,7 +136,7 @@ def HDPub.child (p : HDPub) (index : Nat) : Option HDPub := do
   let a ← sec p.point true
   let b ← natToBE index Gen.hdPubChildIndexW
   let h := hmac p.chainCode (a ++ b)
-  let point := saddInt p.point (beToNat (h.take Gen.hdPubChildKeyHi) : Nat)
+  let point := saddInt p.point ((beToNat (h.take Gen.hdPubChildKeyHi) : Nat) : Int)
   let fp ← p.fingerprint h160
   pure { point := point, chainCode := h.drop Gen.hdPubChildChainLo, depth := p.depth + 1, parentFp := fp,
          childNumber := index, network := p.network, pubVersion := p.pubVersion }
